@@ -286,7 +286,15 @@ fn exchange(conn: &Arc<std::sync::RwLock<Connection>>, stream: &[u8], sentinel: 
     let mut obs = Obs::default();
     let (mut r, mut w) = {
         let mut c = conn.write().unwrap();
-        (c.reader.take().unwrap(), c.writer.take().unwrap())
+        match (c.reader.take(), c.writer.take()) {
+            (Some(r), Some(w)) => (r, w),
+            (r, w) => {
+                // a connection that was just made must hold both halves
+                obs.end = "unusable".into();
+                obs.note = format!("the new connection has {} reader and {} writer", if r.is_some() { "a" } else { "no" }, if w.is_some() { "a" } else { "no" });
+                return obs;
+            }
+        }
     };
     let _ = w.write_all(stream);
     let _ = w.write_all(sentinel);
@@ -446,6 +454,9 @@ pub fn run_transport(args: &[String]) {
             if direct {
                 check_common(&exp, &obs, &server.as_ref().unwrap().log, false, "whole")
             } else {
+                if obs.end == "unusable" {
+                    return Err(format!("{} over {}", obs.note, kind));
+                }
                 if obs.end == "hang" {
                     return Err(format!("no complete reply stream within 6 s over {}", kind));
                 }
